@@ -30,14 +30,24 @@ def main(argv: List[str]) -> int:
     defined = [n.name for n in tree.body if isinstance(n, ast.ClassDef)]
     expected = {d.pyname for d in all_class_decls(mm)} | set(mm.enumerations) | set(mm.aliases) | {"ResponseError", "ResponseErrorMessage", "MessageDirection", "LSPObject"}
     n4 = d4 = 0
+    from oracle.pytypes import all_anonymous_types
+
+    anon_sets = []
+    for t in all_anonymous_types(mm):
+        props = t["value"]["properties"] if t["kind"] == "literal" else mm.and_props(t)
+        anon_sets.append(frozenset(p["name"] for p in props))
     for name in defined:
         n4 += 1
         if name in expected:
             d4 += 1
             continue
-        # generated literal classes are accounted for by a metamodel literal that maps to them
-        from lib.tables import literal_class_finder
-
+        # generated classes of anonymous literal / and types: accounted for when some anonymous type of the metamodel has exactly their wire names
+        cls = getattr(live.types, name, None)
+        if isinstance(cls, type) and live.attrs.has(cls):
+            wn = frozenset((live.wire_name(cls, a.name) or a.name) for a in live.attrs.fields(cls))
+            if wn in anon_sets:
+                d4 += 1
+                continue
         run.violation(f"table:{name}:extra-class", f"lsprotocol.types defines class {name}, which corresponds to no metamodel declaration", {"class": name}, True)
     if n1 == 0:
         run.crash("no table obligation generated")
